@@ -2,7 +2,7 @@
    Only statements; proofs are `exact <lemma of TopoProofs>`. *)
 From Coq Require Import ZArith List Bool Lia.
 Import ListNotations.
-From XO Require Import Topo TopoProofs.
+From XO Require Import Topo TopoProofs TopoComplete TopoTotal.
 Open Scope Z_scope.
 
 (* the closure computed by the checker is exactly the set of classes reachable from the
@@ -51,3 +51,23 @@ Print Assumptions C14_valid_emission_acyclic.
 Print Assumptions C14_cycle_certificate.
 Print Assumptions C14_rank_certificate.
 Print Assumptions C14_case_sound.
+
+(* the judgement is total and exact: the set of needed classes is computed for EVERY graph and list of roots
+   (length g + 1 rounds suffice: classes outside the graph, duplicate nodes and cycles included), and an
+   order is accepted if and only if it is a valid emission -- so the judgement itself can neither miss an
+   invalid order nor raise an alarm on a valid one *)
+Theorem C14_closure_total : forall g roots, exists Cl, closure g roots = Some Cl.
+Proof. exact closure_total. Qed.
+Theorem C14_checker_exact : forall g roots out, valid_emissionb g roots out = true <-> valid_emission g roots out.
+Proof. exact valid_emissionb_iff. Qed.
+(* two valid emissions for the same classes may differ in order only: the same classes, as many *)
+Theorem C14_valid_emissions_same_classes : forall g roots o1 o2,
+  valid_emission g roots o1 -> valid_emission g roots o2 -> forall c, In c o1 <-> In c o2.
+Proof. exact valid_emissions_same_classes. Qed.
+Theorem C14_valid_emissions_same_length : forall g roots o1 o2,
+  valid_emission g roots o1 -> valid_emission g roots o2 -> length o1 = length o2.
+Proof. exact valid_emissions_same_length. Qed.
+Print Assumptions C14_closure_total.
+Print Assumptions C14_checker_exact.
+Print Assumptions C14_valid_emissions_same_classes.
+Print Assumptions C14_valid_emissions_same_length.
